@@ -26,9 +26,40 @@ def _ev(model, t):
     raise ValueError(f"cannot evaluate {t} -> {v}")
 
 
+def _consts(e):
+    out, todo, seen = [], [to_z3(e)], set()
+    while todo:
+        t = todo.pop()
+        if t.get_id() in seen:
+            continue
+        seen.add(t.get_id())
+        if z3.is_const(t) and t.decl().kind() == z3.Z3_OP_UNINTERPRETED:
+            out.append(t)
+        todo.extend(t.children())
+    return out
+
+
+def _rand_eval(expr, rng, env, lo=1, hi=3):
+    """evaluate a size expression with random small values for its free symbols (remembered in env)"""
+    if isinstance(expr, int):
+        return expr
+    e = to_z3(expr)
+    subs = []
+    for c in _consts(e):
+        nm = c.decl().name()
+        if nm not in env:
+            env[nm] = int(rng.integers(lo, hi + 1))
+        subs.append((c, z3.IntVal(env[nm])))
+    v = z3.simplify(z3.substitute(e, *subs)) if subs else z3.simplify(e)
+    return v.as_long()
+
+
 class Item:
     name = "?"
     skip = False
+
+    def random(self, rng, env):
+        raise NotImplementedError
 
     def symbolic(self, I):
         raise NotImplementedError
@@ -62,6 +93,11 @@ class IntArg(Item):
         env[self.name] = _ev(model, z3.Int(self.name))
         return env[self.name]
 
+    def random(self, rng, env):
+        if self.name not in env:
+            env[self.name] = int(rng.integers(-1, 5))
+        return env[self.name]
+
 
 class Assume(Item):
     """not an argument: a constraint on size symbols etc. (part of the harness precondition)"""
@@ -78,6 +114,9 @@ class Assume(Item):
     def concrete(self, model, env):
         return None
 
+    def random(self, rng, env):
+        return None
+
 
 class Const(Item):
     def __init__(self, name, value):
@@ -87,6 +126,9 @@ class Const(Item):
         return self.value
 
     def concrete(self, model, env):
+        return self.value
+
+    def random(self, rng, env):
         return self.value
 
 
@@ -128,6 +170,15 @@ class Matrix(Item):
 
     def jsonable(self, conc):
         return np.asarray(conc).tolist()
+
+    def random(self, rng, env):
+        r = _rand_eval(self.rows, rng, env)
+        hi = 2 if self.bits else 3
+        lo = 0 if self.bits else -1
+        if self.cols is None:
+            return rng.integers(lo, hi, size=(r,))
+        c = _rand_eval(self.cols, rng, env)
+        return rng.integers(lo, hi, size=(r, c))
 
 
 def const_nd(a):
@@ -184,6 +235,11 @@ class Clifford(Item):
         iphase = np.array([_ev(model, Ip(i)) for i in range(2 * n)], dtype=int)
         return {"n": n, "table": table, "phase": phase, "iphase": iphase}
 
+    def random(self, rng, env):
+        n = _rand_eval(self.nsym(), rng, env)
+        return {"n": n, "table": rng.integers(0, 2, size=(2 * n, 2 * n)), "phase": rng.integers(0, 2, size=(2 * n,)),
+                "iphase": rng.integers(0, 2, size=(2 * n,))}
+
     def real(self, conc):
         m = importlib.import_module(self.MOD)
         t = m.CliffordTableau(conc["table"].copy(), conc["phase"].copy())
@@ -230,6 +286,10 @@ class Stabilizer(Item):
         table = np.array([[_ev(model, B(i, j)) for j in range(2 * n)] for i in range(n)], dtype=int).reshape(n, 2 * n)
         phase = np.array([_ev(model, R(i)) for i in range(n)], dtype=int)
         return {"n": n, "table": table, "phase": phase}
+
+    def random(self, rng, env):
+        n = _rand_eval(self.nsym(), rng, env)
+        return {"n": n, "table": rng.integers(0, 2, size=(n, 2 * n)), "phase": rng.integers(0, 2, size=(n,))}
 
     def real(self, conc):
         m = importlib.import_module(self.MOD)
